@@ -359,6 +359,8 @@ class Engine:
         st = it.st
         if node.orelse or len(node.body) != 1:
             return False
+        if self._merge_loop(it, node, env):
+            return True
         stmt, tests = node.body[0], []
         if isinstance(stmt, ast.If) and not stmt.orelse and len(stmt.body) == 1:
             tests, stmt = [stmt.test], stmt.body[0]
@@ -393,6 +395,35 @@ class Engine:
                     dc["result"] = target
             return True
         return False
+
+    def _merge_loop(self, it: Interp, node: ast.For, env: Env) -> bool:
+        """`for k, v in S.items(): D.setdefault(k, v)` and `for k, v in S.items(): D[k] = v` with D, S dicts:
+        the element-wise forms of a dict merge (keep / override), summarised exactly (T-COLL)."""
+        t, itr, stmt = node.target, node.iter, node.body[0]
+        if not (isinstance(t, ast.Tuple) and len(t.elts) == 2 and all(isinstance(e, ast.Name) for e in t.elts)):
+            return False
+        if not (isinstance(itr, ast.Call) and isinstance(itr.func, ast.Attribute) and itr.func.attr == "items"
+                and not itr.args and not itr.keywords):
+            return False
+        kn, vn = t.elts[0].id, t.elts[1].id
+        is_name = lambda e, n: isinstance(e, ast.Name) and e.id == n
+        if isinstance(stmt, ast.Expr) and isinstance(stmt.value, ast.Call) and isinstance(stmt.value.func, ast.Attribute) \
+                and stmt.value.func.attr == "setdefault" and len(stmt.value.args) == 2 and not stmt.value.keywords \
+                and is_name(stmt.value.args[0], kn) and is_name(stmt.value.args[1], vn):
+            dexpr, override = stmt.value.func.value, False
+        elif isinstance(stmt, ast.Assign) and len(stmt.targets) == 1 and isinstance(stmt.targets[0], ast.Subscript) \
+                and is_name(stmt.targets[0].slice, kn) and is_name(stmt.value, vn):
+            dexpr, override = stmt.targets[0].value, True
+        else:
+            return False
+        src = it.eval(itr.func.value, env)
+        dst = it.eval(dexpr, env)
+        if lib._cname(it, src) not in ("dict", "OrderedDict", "mappingproxy") or lib._cname(it, dst) not in ("dict", "OrderedDict"):
+            return False
+        if override and it.st.entails(lib.dict_parts(it, dst)["hi"] == lib.dict_parts(it, dst)["lo"]):
+            return False                 # empty accumulator: the dict-comprehension summary (with its witnesses) is used
+        lib.dict_merge(it, dst, src, override)
+        return True
 
     def loop(self, it: Interp, node, env: Env) -> None:
         st = it.st
